@@ -1,0 +1,21 @@
+//go:build verif
+
+package billstat
+
+import "github.com/AdguardTeam/AdGuardDNS/internal/agd"
+
+// VerifC16Pending returns a deep copy of the records that currently await
+// their upload.  It only reads, under the same mutex as Record.
+func (r *RuntimeRecorder) VerifC16Pending() (recs map[agd.DeviceID]Record) {
+	r.mu.Lock()
+	defer r.mu.Unlock()
+
+	recs = make(map[agd.DeviceID]Record, len(r.records))
+	for id, rec := range r.records {
+		if rec != nil {
+			recs[id] = *rec
+		}
+	}
+
+	return recs
+}
